@@ -42,4 +42,34 @@ Section Seq.
     pose proof (record_faithful_lemma A eqv a' b' reverse _ s script V R M) as FF.
     unfold a', b' in FF. destruct reverse; exact FF.
   Qed.
+
+  (** the route table cannot fill up when (m+1)(n+1) <= route_size *)
+  Lemma not_exhausted a b script :
+    (zlen A a + 1) * (zlen A b + 1) <= route_size ->
+    diff_slice A eqv route_size a b = Ok script ->
+    exhausted A eqv route_size a b = Ok false.
+  Proof.
+    unfold diff_slice, exhausted. intros RS D.
+    set (reverse := zlen A a >=? zlen A b) in *.
+    set (a' := if reverse then b else a) in *.
+    set (b' := if reverse then a else b) in *.
+    assert (LE : zlen A a' <= zlen A b' /\ (zlen A a' + 1) * (zlen A b' + 1) <= route_size).
+    { unfold a', b', reverse. destruct (zlen A a >=? zlen A b) eqn:G.
+      - rewrite Z.geb_leb in G. apply Z.leb_le in G. split; [exact G | lia].
+      - rewrite Z.geb_leb in G. apply Z.leb_gt in G. split; lia. }
+    destruct LE as [LE RS'].
+    apply bind_ok in D as (raw & C & _). simpl in C.
+    apply bind_ok in C as (st & S & _). rewrite S. simpl.
+    pose proof (search_reaches_corner A eqv route_size a' b' _ LE st RS' S) as FN.
+    replace (fp st (zlen A b' - zlen A a' + (zlen A a' + 1)) >=? zlen A b') with true; [reflexivity|].
+    symmetry. rewrite Z.geb_leb. apply Z.leb_le. exact FN.
+  Qed.
+
+  Lemma diff_slice_faithful_bounded a b script :
+    (zlen A a + 1) * (zlen A b + 1) <= route_size ->
+    diff_slice A eqv route_size a b = Ok script ->
+    faithful A eqv a b script.
+  Proof.
+    intros RS D. apply diff_slice_faithful; [exact D|]. eapply not_exhausted; eauto.
+  Qed.
 End Seq.
